@@ -322,7 +322,8 @@ def check_item(ctx, t, it, r, key, crate):
             ctx.check(re.search(r"(?<![A-Za-z0-9_#])(r#)?%s(?![A-Za-z0-9_])" % re.escape(plain_ident), b) is not None, "R12.2", [name, key, "runs-own-function"],
                       "the runner of `%s` does not call it: %s" % (ident, b[:160]), where)
             if args is not None:
-                ctx.check(ARGS + ".runner(" in b and "ToStringHelper(arg).to_string()" in b, "R12.2", [name, key, "args-runner"], "args runner: %s" % b[:200], where)
+                ctx.check(re.search(r"(?<![A-Za-z0-9_])%s(?![A-Za-z0-9_])" % re.escape(ARGS), b) is not None and ".runner(" in b and "ToStringHelper(arg).to_string()" in b,
+                          "R12.2", [name, key, "args-runner"], "the runner does not go through the argument cell %s: %s" % (ARGS, b[:200]), where)
                 if "!" in args["value"]:
                     ctx.note("%s: args of %s contain a macro invocation (expanded in the output); expression text not compared" % (name, ident))
                 else:
@@ -406,7 +407,10 @@ def check_item(ctx, t, it, r, key, crate):
         seen.add((ti, ci))
         ctx.check(("BenchEntryRunner::Args(" in b) == (args is not None), "R12.2", [name, key, "runner-kind", str((ti, ci))], "runner kind vs args", where)
         if args is not None:
-            ctx.check(ARGS + ".runner(" in b, "R12.2", [name, key, "shared-args", str((ti, ci))], "a generic instantiation does not use the shared argument cell %s" % ARGS, where)
+            ctx.check(len(arg_statics) == 1 and re.search(r"(?<![A-Za-z0-9_])%s(?![A-Za-z0-9_])" % re.escape(ARGS), b) is not None and ".runner(" in b,
+                      "R12.2", [name, key, "shared-args", str((ti, ci))],
+                      "a generic instantiation does not use the one shared argument cell (%d BenchArgs statics in this registration): the argument list would be evaluated once per instantiation"
+                      % len(arg_statics), where)
     if len(gb) == want_n and want_n:
         full = {(i if types is not None else None, j if consts is not None else None) for i in range(nt) for j in range(nc)}
         ctx.check(seen == full, "R12.2", [name, key, "covers-the-whole-product"], "combinations emitted: %s" % sorted(seen, key=str), where)
